@@ -354,7 +354,11 @@ def run(ctx):
             # ---- grey metas
             if ctx.shard == 0:
                 for stream, name in [(b"20 text/gemini\nx\r\nbody", "meta-bare-lf"), (b"20 text/gem\rini\r\nbody", "meta-bare-cr"), (b"51 " + b"m" * 3000 + b"\r\n", "meta-too-long"),
-                                     (b"20\r\nstatus without the mandatory space\n", "no-space-after-status"), (b"20 text/gemini\n\r\nbody", "meta-ends-with-lf")]:
+                                     (b"20\r\nstatus without the mandatory space\n", "no-space-after-status"), (b"20 text/gemini\n\r\nbody", "meta-ends-with-lf"),
+                                     # over-long and not ASCII: whatever the proxy makes of these, what it sends is within the limits IN BYTES
+                                     (b"51 " + "\u00e9".encode() * 900 + b"\r\n", "meta-too-long-two-byte-chars"), (b"20 text/" + "\u4e16".encode() * 500 + b"\r\nbody", "meta-too-long-three-byte-chars"),
+                                     ("\u00e9\u4e16\U0001f600".encode() * 200 + b"\r\n", "garbage-header-multibyte"), (("x" * 3 + "\u00e9" * 1100 + "\r\n").encode(), "garbage-header-long-multibyte"),
+                                     (b"44 " + "\u00e9".encode() * 511 + b"\r\n", "meta-1022-bytes-in-511-chars"), (b"31 gemini://example.org/" + "\U0001f600".encode() * 260 + b"\r\n", "redirect-meta-over-limit-four-byte-chars")]:
                     def fn(conn, stream=stream):
                         conn.read_line(timeout=3)
                         conn.send(stream)
